@@ -35,11 +35,11 @@ func runWorkerEnv(bin string, sc *proto.Scenario, nSites int, env ...string) (*p
 	if err := cmd.Run(); err != nil {
 		return nil, fmt.Errorf("%v: %s", err, firstLines(se.String(), 4))
 	}
-	res := &proto.Result{}
-	if err := json.Unmarshal(bytes.TrimSpace(so.Bytes()), res); err != nil {
-		return nil, err
+	results, _ := parseOutput(so.Bytes())
+	if len(results) != 1 {
+		return nil, fmt.Errorf("worker printed %d results", len(results))
 	}
-	return res, nil
+	return results[0], nil
 }
 
 func (d *driver) selftest(native string, which []string) int {
@@ -141,7 +141,7 @@ func (d *driver) selfFidelity(native string) bool {
 	}
 	fmt.Printf("[selftest fidelity] %d (program x operation) pairs: instrumented build with the simulator idle vs untouched tree\n", len(jobs))
 	var mu sync.Mutex
-	bad, done := 0, 0
+	bad, done, bothDied := 0, 0, 0
 	var wg sync.WaitGroup
 	ch := make(chan job, len(jobs))
 	for _, j := range jobs {
@@ -182,6 +182,8 @@ func (d *driver) selfFidelity(native string) bool {
 					if (errA == nil) != (errN == nil) {
 						bad++
 						fmt.Printf("  MISMATCH %s %s: instrumented err=%v native err=%v\n", j.p.Name, j.kind, errA, errN)
+					} else {
+						bothDied++
 					}
 					mu.Unlock()
 					continue
@@ -196,7 +198,7 @@ func (d *driver) selfFidelity(native string) bool {
 		}()
 	}
 	wg.Wait()
-	fmt.Printf("[selftest fidelity] %s: %d pairs compared, %d mismatches, %.1fs\n", map[bool]string{true: "OK", false: "FAILED"}[bad == 0], done, bad, time.Since(start).Seconds())
+	fmt.Printf("[selftest fidelity] %s: %d pairs compared (%d of them: both builds die in the same place), %d mismatches, %.1fs\n", map[bool]string{true: "OK", false: "FAILED"}[bad == 0], done, bothDied, bad, time.Since(start).Seconds())
 	if bad > 0 {
 		fmt.Fprintln(os.Stderr, "TOOL-ERROR: the instrumented build does not behave like the untouched tree (or the tree is nondeterministic natively)")
 	}
